@@ -315,6 +315,10 @@ package encoder
 //@   ensures err != nil ==> bufLen(buf) == old(bufLen(buf)) && bufSame(buf, old(bufLen(buf)))
 //@   ensures err == nil ==> bufLen(buf) == old(bufLen(buf)) + len(res) && bufSame(buf, old(bufLen(buf)))
 //@   assigns M
+//@   loop 1: invariant 0 <= start && start <= end && end == len(src) - 1
+
+//@ func isSpace(c) (r)
+//@   inline
 
 //@ func takeIndentSrcRuntimeContext(src) (ctx, buf)
 //@   props C18
